@@ -299,6 +299,7 @@ pub fn run(run: &Run) {
         let st = run_scenario(run, &scn, 1_500_000);
         println!("  scenario {}: depth {} states {} transitions {}", scn.name, st.depth_completed, st.states, st.transitions);
     }
+    long_histories(run, thorough);
     // the repository's standard genesis configurations (mainnet: fee pool 6.5 * 10^12, multiplier 10^6; testnet: multiplier 100)
     run_std_genesis(run, if thorough { 8 } else { 6 });
     // very large fees: the reward coin is exact even when (fee pool >> 16) + tips approaches or exceeds the maximum coin value
